@@ -158,10 +158,11 @@ theorem parseRecord_ok {v : Variant} {x : Ext} {st st' : LexState} {fs : List St
   subst h
   exact ⟨_, _, rfl, ⟨_, _, by assumption, by assumption⟩, by assumption, by assumption, by assumption, by assumption⟩
 
-/-- what `read_lexicon` maintains -/
+/-- what `read_lexicon` maintains: the counter is at least the number of inline units (it is
+exact until `resolve` replaces inline units without touching the counter) -/
 def LexInv (v : Variant) (st : LexState) : Prop :=
   (∀ e ∈ st.entries, EntryWf e ∧ (v.d5 = true → hasNul e.surface = false)) ∧
-  st.unresolved = (st.entries.map entryInline).sum
+  (st.entries.map entryInline).sum ≤ st.unresolved
 
 theorem parseRecord_inv {v : Variant} {x : Ext} {st st' : LexState} {fs : List Str}
     (hi : LexInv v st) (h : parseRecord v x st fs = .ok st') : LexInv v st' := by
@@ -208,21 +209,23 @@ theorem readLexicon_no_panic (v : Variant) (x : Ext) (st : LexState) (recs : Lis
     · rfl
     · exact ih _
 
-theorem readLex_ok {v : Variant} {x : Ext} {inp : Input} {st : LexState} (h : readLex v x inp = .ok st) :
-    LexInv v st := by
+theorem readLex_ok {v : Variant} {x : Ext} {b b' : Builder} {recs : List (Nat × List Str)} {ce : Option Nat}
+    (hi : LexInv v b.lex) (h : readLex v x b recs ce = .ok b') :
+    LexInv v b'.lex ∧ b'.resolved = (if v.rf then false else b.resolved) := by
   unfold readLex at h
   split at h
   · rename_i st' hst
     split at h
     · simp at h
     · injection h with h; subst h
-      exact readLexicon_inv ⟨by simp, by simp⟩ hst
+      exact ⟨readLexicon_inv hi hst, rfl⟩
   · simp at h
   · simp at h
 
-theorem readLex_no_panic (v : Variant) (x : Ext) (inp : Input) : (readLex v x inp).isPanic = false := by
+theorem readLex_no_panic (v : Variant) (x : Ext) (b : Builder) (recs : List (Nat × List Str)) (ce : Option Nat) :
+    (readLex v x b recs ce).isPanic = false := by
   unfold readLex
-  have := readLexicon_no_panic v x ⟨inp.base.pos0, [], 0⟩ inp.recs
+  have := readLexicon_no_panic v x b.lex recs
   split
   · split <;> rfl
   · rfl
@@ -341,48 +344,80 @@ theorem sum_eq_zero {l : List Nat} (h : l.sum = 0) : ∀ x ∈ l, x = 0 := by
     · omega
     · exact ih (by omega) x hm
 
-/-- what `compile` may rely on -/
-def BuilderInv (v : Variant) (b : Builder) : Prop :=
-  (∀ e ∈ b.lex.entries, EntryWf e ∧ (v.d5 = true → hasNul e.surface = false)) ∧
-  ((b.lex.unresolved = 0 ∨ b.resolved = true) → ∀ e ∈ b.lex.entries, NoInline e)
+theorem sum_zero_of_all {l : List Nat} (h : ∀ x ∈ l, x = 0) : l.sum = 0 := by
+  induction l with
+  | nil => rfl
+  | cons a as ih =>
+    simp only [List.sum_cons]
+    have := h a List.mem_cons_self
+    have := ih (fun x hx => h x (List.mem_cons_of_mem _ hx))
+    omega
 
-theorem resolve_inv {v : Variant} {b b' : Builder} {n : Nat} (hi : LexInv v b.lex) (h : resolve b = .ok (b', n)) :
-    BuilderInv v b' := by
+theorem noInline_of_unresolved_zero {v : Variant} {st : LexState} (hi : LexInv v st) (h0 : st.unresolved = 0) :
+    ∀ e ∈ st.entries, NoInline e := by
+  intro e he
+  have := hi.2
+  rw [h0] at this
+  exact sum_eq_zero (Nat.le_zero.1 this) _ (List.mem_map.2 ⟨e, he, rfl⟩)
+
+/-- what `compile` may rely on after any sequence of calls.  The last clause is the one the code
+as it stands does not have: with the flag cleared by `read_lexicon` (`v.rf`), a set flag means
+that no inline unit is left. -/
+def BuilderInv (v : Variant) (b : Builder) : Prop :=
+  LexInv v b.lex ∧ (v.rf = true → b.resolved = true → ∀ e ∈ b.lex.entries, NoInline e)
+
+theorem init_inv (v : Variant) (base : Base) : BuilderInv v (Builder.init base) :=
+  ⟨⟨by simp [Builder.init], by simp [Builder.init]⟩, fun _ h => by simp [Builder.init] at h⟩
+
+theorem readLex_inv {v : Variant} {x : Ext} {b b' : Builder} {recs : List (Nat × List Str)} {ce : Option Nat}
+    (hi : BuilderInv v b) (h : readLex v x b recs ce = .ok b') : BuilderInv v b' := by
+  obtain ⟨h1, h2⟩ := readLex_ok hi.1 h
+  refine ⟨h1, fun hrf hres => ?_⟩
+  rw [h2, hrf] at hres
+  cases hres
+
+theorem resolve_inv {v : Variant} {b b' : Builder} {n : Nat} (hi : BuilderInv v b) (h : resolve b = .ok (b', n)) :
+    BuilderInv v b' ∧ ∀ e ∈ b'.lex.entries, NoInline e := by
   unfold resolve at h
   split at h
   · rename_i h0
     injection h with h; injection h with h1 h2; subst h1
-    refine ⟨hi.1, fun _ e he => ?_⟩
-    have := hi.2
-    rw [h0] at this
-    exact sum_eq_zero this.symm _ (List.mem_map.2 ⟨e, he, rfl⟩)
+    have hn := noInline_of_unresolved_zero hi.1 h0
+    exact ⟨⟨hi.1, fun _ _ => hn⟩, hn⟩
   · split at h
     · rename_i es m hr
       injection h with h; injection h with h1 h2; subst h1
       have hd : (if b.base.isUser then 1 else 0) ≤ 1 := by split <;> omega
       have := resolveEntries_ok (fun s p r w hw => resolveInline_ok hd hw)
-        (fun s => v.d5 = true → hasNul s = false) hr hi.1
-      exact ⟨fun e he => ⟨(this e he).1, (this e he).2.1⟩, fun _ e he => (this e he).2.2⟩
+        (fun s => v.d5 = true → hasNul s = false) hr hi.1.1
+      have hn : ∀ e ∈ es, NoInline e := fun e he => (this e he).2.2
+      refine ⟨⟨⟨fun e he => ⟨(this e he).1, (this e he).2.1⟩, ?_⟩, fun _ _ => hn⟩, hn⟩
+      have hz : (es.map entryInline).sum = 0 :=
+        sum_zero_of_all (fun x hx => by
+          obtain ⟨e, he, rfl⟩ := List.mem_map.1 hx
+          exact hn e he)
+      simp only [hz]; exact Nat.zero_le _
     · simp at h
     · simp at h
 
-theorem resolveOpt_inv {v : Variant} {r : Bool} {b b' : Builder} {n : Nat} (hi : LexInv v b.lex)
-    (hres : b.resolved = false) (h : resolveOpt r b = .ok (b', n)) : BuilderInv v b' := by
-  unfold resolveOpt at h
-  split at h
-  · exact resolve_inv hi h
-  · injection h with h; injection h with h1 h2; subst h1
-    refine ⟨hi.1, fun hc e he => ?_⟩
-    rcases hc with h0 | h1
-    · have := hi.2
-      rw [h0] at this
-      exact sum_eq_zero this.symm _ (List.mem_map.2 ⟨e, he, rfl⟩)
-    · rw [hres] at h1; cases h1
+theorem runOp_inv {v : Variant} {x : Ext} {s s' : Builder × Nat} {op : Op}
+    (hi : BuilderInv v s.1) (h : runOp v x s op = .ok s') : BuilderInv v s'.1 := by
+  cases op with
+  | conn lines => obtain ⟨c, _, rfl⟩ := runOp_conn h; exact hi
+  | lex recs ce => obtain ⟨b, hb, rfl⟩ := runOp_lex h; exact readLex_inv hi hb
+  | resolve => obtain ⟨b, n, hb, rfl⟩ := runOp_resolve h; exact (resolve_inv hi hb).1
+
+theorem runOps_inv {v : Variant} {x : Ext} {s s' : Builder × Nat} {ops : List Op}
+    (hi : BuilderInv v s.1) (h : runOps v x s ops = .ok s') : BuilderInv v s'.1 := by
+  induction ops generalizing s with
+  | nil => simp only [runOps, Except.ok.injEq] at h; subst h; exact hi
+  | cons op ops ih =>
+    obtain ⟨s1, h1, h2⟩ := runOps_cons h
+    exact ih (runOp_inv hi h1) h2
 
 theorem prepare_inv {v : Variant} {x : Ext} {inp : Input} {b : Builder} {cnt : Nat}
-    (h : prepare v x inp = .ok (b, cnt)) : BuilderInv v b := by
-  obtain ⟨c, st, _, hl, hr⟩ := prepare_ok_iff.1 h
-  exact resolveOpt_inv (b := mkBuilder inp c st) (readLex_ok hl) rfl hr
+    (h : prepare v x inp = .ok (b, cnt)) : BuilderInv v b :=
+  runOps_inv (s := (Builder.init inp.base, 0)) (init_inv v inp.base) h
 
 /-! ## validation does not panic on such entries -/
 
@@ -456,6 +491,82 @@ theorem validateEntries_no_panic {v : Variant} {ml mr : Int} {ns : Option Nat} {
     (h : ∀ e ∈ es, EntryWf e ∧ NoInline e) : (validateEntries v ml mr ns es).isPanic = false := by
   unfold validateEntries
   split <;> exact validateFrom_no_panic h
+
+/-! ## … and on well-formed entries its only panic is the one about an inline unit -/
+
+theorem andThen_panic {r n : Res Unit} {w : PanicWhy} (h : r.andThen n = .panic w) :
+    r = .panic w ∨ (r = .ok () ∧ n = .panic w) := by
+  cases r with
+  | ok u => right; exact ⟨rfl, by simpa [Res.andThen] using h⟩
+  | err k l => simp [Res.andThen] at h
+  | panic w' => left; simpa [Res.andThen] using h
+
+theorem not_panic_of_isPanic {α : Type} {r : Res α} {w : PanicWhy} (h : r.isPanic = false) : r ≠ .panic w := by
+  intro he; rw [he] at h; simp [Res.isPanic] at h
+
+theorem validateUnits_panic {max0 max1 : Nat} {us : List SplitUnit} {w : PanicWhy} (h : ∀ u ∈ us, UnitWf u)
+    (hp : validateUnits max0 max1 us = .panic w) : w = .unresolvedSplit ∧ inlineCount us ≠ 0 := by
+  induction us with
+  | nil => simp [validateUnits] at hp
+  | cons u us ih =>
+    cases u with
+    | inline s p r =>
+      simp only [validateUnits, Res.panic.injEq] at hp
+      exact ⟨hp.symm, by simp [inlineCount, List.filter, SplitUnit.isInline]⟩
+    | ref w' =>
+      unfold validateUnits at hp
+      rcases andThen_panic hp with h1 | ⟨_, h2⟩
+      · exact absurd h1 (not_panic_of_isPanic (validateWid_no_panic (h _ List.mem_cons_self)))
+      · rw [inlineCount_cons_ref]
+        exact ih (fun u' hu' => h u' (List.mem_cons_of_mem _ hu')) h2
+
+theorem validateEntry_panic {v : Variant} {ml mr : Int} {max0 max1 : Nat} {e : Entry} {w : PanicWhy}
+    (hw : EntryWf e) (hp : validateEntry v ml mr max0 max1 e = .panic w) :
+    w = .unresolvedSplit ∧ ¬ NoInline e := by
+  unfold validateEntry at hp
+  split at hp
+  · simp at hp
+  · split at hp
+    · simp at hp
+    · rcases andThen_panic hp with h1 | ⟨_, h2⟩
+      · exfalso
+        split at h1
+        · rename_i hne
+          rcases hw.1 with h | h
+          · exact absurd h hne
+          · exact not_panic_of_isPanic (validateWid_no_panic h) h1
+        · simp at h1
+      · rcases andThen_panic h2 with h3 | ⟨_, h4⟩
+        · obtain ⟨k1, k2⟩ := validateUnits_panic hw.2.2.1 h3
+          exact ⟨k1, by unfold NoInline entryInline; omega⟩
+        · rcases andThen_panic h4 with h5 | ⟨_, h6⟩
+          · obtain ⟨k1, k2⟩ := validateUnits_panic hw.2.2.2 h5
+            exact ⟨k1, by unfold NoInline entryInline; omega⟩
+          · exact absurd h6 (not_panic_of_isPanic (validateWids_no_panic hw.2.1))
+
+theorem atLine_panic {α : Type} {r : Res α} {n : Nat} {w : PanicWhy} (h : r.atLine n = .panic w) : r = .panic w := by
+  cases r <;> simp [Res.atLine] at h ⊢; exact h
+
+theorem validateFrom_panic {v : Variant} {ml mr : Int} {max0 max1 : Nat} {es : List Entry} {line : Nat} {w : PanicWhy}
+    (h : ∀ e ∈ es, EntryWf e) (hp : validateFrom v ml mr max0 max1 es line = .panic w) :
+    w = .unresolvedSplit ∧ ∃ e ∈ es, ¬ NoInline e := by
+  induction es generalizing line with
+  | nil => simp [validateFrom] at hp
+  | cons e es ih =>
+    unfold validateFrom at hp
+    rcases andThen_panic hp with h1 | ⟨_, h2⟩
+    · obtain ⟨k1, k2⟩ := validateEntry_panic (h e List.mem_cons_self) (atLine_panic h1)
+      exact ⟨k1, e, List.mem_cons_self, k2⟩
+    · obtain ⟨k1, e', he', k2⟩ := ih (fun e' he' => h e' (List.mem_cons_of_mem _ he')) h2
+      exact ⟨k1, e', List.mem_cons_of_mem _ he', k2⟩
+
+/-- the `panic!` of `validate_wid` is unreachable, the one of `validate_entries` needs an entry
+that still has an inline unit -/
+theorem validateEntries_panic {v : Variant} {ml mr : Int} {ns : Option Nat} {es : List Entry} {w : PanicWhy}
+    (h : ∀ e ∈ es, EntryWf e) (hp : validateEntries v ml mr ns es = .panic w) :
+    w = .unresolvedSplit ∧ ∃ e ∈ es, ¬ NoInline e := by
+  unfold validateEntries at hp
+  split at hp <;> exact validateFrom_panic h hp
 
 /-! ## the script has no panic step -/
 
@@ -623,28 +734,30 @@ theorem compileSteps_noPanic {v : Variant} {b : Builder} (dl tl : Nat) (h4 : v.d
   exact noPanic_append (noPanic_append (noPanic_append (noPanic_append (headerSteps_noPanic _)
     (posSteps_noPanic _ _)) (connSteps_noPanic _)) (indexSteps_noPanic tl h4 hnul)) (lexSteps_noPanic _)
 
+/-- `check_if_resolved` passed: no inline unit is left — provided the flag can be trusted -/
+theorem checked_noInline {v : Variant} {b : Builder} (hrf : v.rf = true) (hi : BuilderInv v b)
+    (hc : ¬ (b.lex.unresolved > 0 ∧ (!b.resolved) = true)) : ∀ e ∈ b.lex.entries, NoInline e := by
+  by_cases h0 : b.lex.unresolved = 0
+  · exact noInline_of_unresolved_zero hi.1 h0
+  · cases hr : b.resolved with
+    | true => exact hi.2 hrf hr
+    | false => exact absurd ⟨by omega, by simp [hr]⟩ hc
+
 theorem compile_no_panic {v : Variant} {b : Builder} (dl tl : Nat) (limit : Option Nat)
-    (h4 : v.d4 = true) (h5 : v.d5 = true) (hi : BuilderInv v b) :
+    (h4 : v.d4 = true) (h5 : v.d5 = true) (hrf : v.rf = true) (hi : BuilderInv v b) :
     (compile v b dl tl limit).isPanic = false := by
   unfold compile
   split
   · rfl
   · rename_i hc
-    have hres : b.lex.unresolved = 0 ∨ b.resolved = true := by
-      by_cases h0 : b.lex.unresolved = 0
-      · exact Or.inl h0
-      · right
-        cases hr : b.resolved with
-        | true => rfl
-        | false => exact absurd ⟨by omega, by simp [hr]⟩ hc
     have hall : ∀ e ∈ b.lex.entries, EntryWf e ∧ NoInline e :=
-      fun e he => ⟨(hi.1 e he).1, hi.2 hres e he⟩
+      fun e he => ⟨(hi.1.1 e he).1, checked_noInline hrf hi hc e he⟩
     have hv := validateEntries_no_panic (v := v) (ml := b.maxLeft) (mr := b.maxRight) (ns := b.base.numSystem) hall
     split
     · rfl
     · rename_i w hw; rw [hw] at hv; simp [Res.isPanic] at hv
     · have he := exec_no_panic (limit := limit) (pos := 0)
-        (compileSteps_noPanic (v := v) (b := b) dl tl h4 (fun e he => (hi.1 e he).2 h5))
+        (compileSteps_noPanic (v := v) (b := b) dl tl h4 (fun e he => (hi.1.1 e he).2 h5))
       split
       · rfl
       · rfl
@@ -729,41 +842,52 @@ theorem toExcept_not_panic {α : Type} {st : Stage} {r : Res α} (h : r.isPanic 
   | err k l => simp [Res.toExcept] at hf; subst hf; simp
   | panic w' => simp [Res.isPanic] at h
 
-theorem resolveOpt_no_panic (r : Bool) (b : Builder) : (resolveOpt r b).isPanic = false := by
-  unfold resolveOpt
-  split
-  · exact resolve_no_panic b
-  · rfl
-
-theorem readConnOpt_no_panic {v : Variant} (h1 : v.d1 = true) (h2 : v.d2 = true) (c : Option (List (Option Str))) :
-    (readConnOpt v c).isPanic = false := by
-  cases c with
-  | none => rfl
-  | some lines => exact readConn_no_panic h1 h2 lines
-
-/-- reading and resolving never panic once the matrix reader is repaired -/
-theorem prepare_no_panic {v : Variant} {x : Ext} {inp : Input} (h1 : v.d1 = true) (h2 : v.d2 = true) :
-    ∀ f, prepare v x inp = .error f → ∀ s w, f ≠ .panic s w := by
+theorem runOp_no_panic {v : Variant} {x : Ext} {s : Builder × Nat} {op : Op} (h1 : v.d1 = true) (h2 : v.d2 = true) :
+    ∀ f, runOp v x s op = .error f → ∀ st w, f ≠ .panic st w := by
   intro f hf
-  unfold prepare at hf
-  cases hc : (readConnOpt v inp.conn).toExcept .conn with
-  | error f' =>
-    simp only [hc] at hf
-    injection hf with hf; subst hf
-    exact toExcept_not_panic (readConnOpt_no_panic h1 h2 _) _ hc
-  | ok c =>
-    simp only [hc] at hf
-    cases hl : (readLex v x inp).toExcept .lex with
+  cases op with
+  | conn lines =>
+    simp only [runOp] at hf
+    cases hc : (readConn v lines).toExcept .conn with
     | error f' =>
-      simp only [hl] at hf
-      injection hf with hf; subst hf
-      exact toExcept_not_panic (readLex_no_panic v x inp) _ hl
-    | ok st =>
-      simp only [hl] at hf
-      exact toExcept_not_panic (resolveOpt_no_panic _ _) _ hf
+      simp only [hc] at hf; injection hf with hf; subst hf
+      exact toExcept_not_panic (readConn_no_panic h1 h2 lines) _ hc
+    | ok c => simp [hc] at hf
+  | lex recs ce =>
+    simp only [runOp] at hf
+    cases hc : (readLex v x s.1 recs ce).toExcept .lex with
+    | error f' =>
+      simp only [hc] at hf; injection hf with hf; subst hf
+      exact toExcept_not_panic (readLex_no_panic v x s.1 recs ce) _ hc
+    | ok c => simp [hc] at hf
+  | resolve =>
+    simp only [runOp] at hf
+    cases hc : (resolve s.1).toExcept .resolve with
+    | error f' =>
+      simp only [hc] at hf; injection hf with hf; subst hf
+      exact toExcept_not_panic (resolve_no_panic s.1) _ hc
+    | ok c => simp [hc] at hf
+
+theorem runOps_no_panic {v : Variant} {x : Ext} {s : Builder × Nat} {ops : List Op} (h1 : v.d1 = true) (h2 : v.d2 = true) :
+    ∀ f, runOps v x s ops = .error f → ∀ st w, f ≠ .panic st w := by
+  induction ops generalizing s with
+  | nil => intro f hf; simp [runOps] at hf
+  | cons op ops ih =>
+    intro f hf
+    simp only [runOps] at hf
+    cases ho : runOp v x s op with
+    | error f' =>
+      simp only [ho] at hf; injection hf with hf; subst hf
+      exact runOp_no_panic h1 h2 _ ho
+    | ok s' => simp only [ho] at hf; exact ih _ hf
+
+/-- no call before `compile` panics once the matrix reader is repaired -/
+theorem prepare_no_panic {v : Variant} {x : Ext} {inp : Input} (h1 : v.d1 = true) (h2 : v.d2 = true) :
+    ∀ f, prepare v x inp = .error f → ∀ s w, f ≠ .panic s w :=
+  fun f hf => runOps_no_panic h1 h2 f hf
 
 theorem build_no_panic {v : Variant} (x : Ext) (inp : Input) (limit : Option Nat)
-    (h1 : v.d1 = true) (h2 : v.d2 = true) (h4 : v.d4 = true) (h5 : v.d5 = true) :
+    (h1 : v.d1 = true) (h2 : v.d2 = true) (h4 : v.d4 = true) (h5 : v.d5 = true) (hrf : v.rf = true) :
     ∀ s w, build v x inp limit ≠ .panic s w := by
   intro s w
   unfold build
@@ -776,7 +900,7 @@ theorem build_no_panic {v : Variant} (x : Ext) (inp : Input) (limit : Option Nat
   | ok p =>
     obtain ⟨b, cnt⟩ := p
     have hi := prepare_inv hp
-    have hc := compile_no_panic inp.descLen inp.trieLen limit h4 h5 hi
+    have hc := compile_no_panic inp.descLen inp.trieLen limit h4 h5 hrf hi
     simp only [finish]
     cases hcmp : compile v b inp.descLen inp.trieLen limit with
     | ok r => simp
@@ -855,28 +979,36 @@ theorem indexSteps_panics {v : Variant} {es : List Entry} {tl : Nat} {w : PanicW
           · cases hq'
         · simp at h
 
-/-- a panic of `compile` is one of the two panics of the index step -/
+/-- a panic of `compile` is one of the two panics of the index step, or — with the flag as the
+code has it — the `panic!` of `validate_entries` about an inline unit -/
 theorem compile_panic_kind {v : Variant} {b : Builder} {dl tl : Nat} {limit : Option Nat} {w : PanicWhy}
     (hi : BuilderInv v b) (h : compile v b dl tl limit = .panic w) :
     (w = .emptyKeys ∧ v.d4 = false ∧ (b.lex.entries.filter Entry.shouldIndex) = []) ∨
-    (w = .nulKey ∧ ∃ e ∈ b.lex.entries, e.shouldIndex = true ∧ hasNul e.surface = true) := by
+    (w = .nulKey ∧ ∃ e ∈ b.lex.entries, e.shouldIndex = true ∧ hasNul e.surface = true) ∨
+    (w = .unresolvedSplit ∧ v.rf = false ∧ b.resolved = true ∧ ∃ e ∈ b.lex.entries, ¬ NoInline e) := by
   unfold compile at h
   split at h
   · simp at h
   · rename_i hc
-    have hres : b.lex.unresolved = 0 ∨ b.resolved = true := by
-      by_cases h0 : b.lex.unresolved = 0
-      · exact Or.inl h0
-      · right
-        cases hr : b.resolved with
-        | true => rfl
-        | false => exact absurd ⟨by omega, by simp [hr]⟩ hc
-    have hall : ∀ e ∈ b.lex.entries, EntryWf e ∧ NoInline e :=
-      fun e he => ⟨(hi.1 e he).1, hi.2 hres e he⟩
-    have hv := validateEntries_no_panic (v := v) (ml := b.maxLeft) (mr := b.maxRight) (ns := b.base.numSystem) hall
     split at h
     · simp at h
-    · rename_i w' hw; rw [hw] at hv; simp [Res.isPanic] at hv
+    · rename_i w' hw
+      injection h with h; subst h
+      obtain ⟨k1, e, he, k2⟩ := validateEntries_panic (fun e he => (hi.1.1 e he).1) hw
+      right; right
+      refine ⟨k1, ?_, ?_, e, he, k2⟩
+      · cases hrf : v.rf with
+        | false => rfl
+        | true => exact absurd (checked_noInline hrf hi hc e he) k2
+      · cases hr : b.resolved with
+        | true => rfl
+        | false =>
+          exfalso
+          have h0 : b.lex.unresolved = 0 := by
+            by_cases h0 : b.lex.unresolved = 0
+            · exact h0
+            · exact absurd ⟨by omega, by simp [hr]⟩ hc
+          exact k2 (noInline_of_unresolved_zero hi.1 h0 e he)
     · split at h
       · simp at h
       · simp at h
@@ -889,35 +1021,56 @@ theorem compile_panic_kind {v : Variant} {b : Builder} {dl tl : Nat} {limit : Op
         · have := headerSteps_noPanic dl _ hm; simp [Step.isPanic] at this
         · have := posSteps_noPanic _ _ _ hm; simp [Step.isPanic] at this
         · have := connSteps_noPanic _ _ hm; simp [Step.isPanic] at this
-        · exact indexSteps_panics hm
+        · rcases indexSteps_panics hm with h' | h'
+          · exact Or.inl h'
+          · exact Or.inr (Or.inl h')
         · have := lexSteps_noPanic _ _ hm; simp [Step.isPanic] at this
 
-/-- a panic while reading/resolving is a panic of the matrix reader -/
-theorem prepare_panic_stage {v : Variant} {x : Ext} {inp : Input} {s : Stage} {w : PanicWhy}
-    (hf : prepare v x inp = .error (.panic s w)) : s = .conn := by
-  unfold prepare at hf
-  cases hc : (readConnOpt v inp.conn).toExcept .conn with
-  | error f' =>
-    simp only [hc] at hf
-    injection hf with hf; subst hf
-    cases hr : readConnOpt v inp.conn with
-    | ok a => simp [hr, Res.toExcept] at hc
-    | err k l => simp [hr, Res.toExcept] at hc
-    | panic w' => simp [hr, Res.toExcept] at hc; exact hc.1.symm
-  | ok c =>
-    simp only [hc] at hf
-    cases hl : (readLex v x inp).toExcept .lex with
+theorem runOp_panic_stage {v : Variant} {x : Ext} {s : Builder × Nat} {op : Op} {st : Stage} {w : PanicWhy}
+    (hf : runOp v x s op = .error (.panic st w)) : st = .conn := by
+  cases op with
+  | conn lines =>
+    simp only [runOp] at hf
+    cases hr : readConn v lines with
+    | ok a => simp [hr, Res.toExcept] at hf
+    | err k l => simp [hr, Res.toExcept] at hf
+    | panic w' => simp [hr, Res.toExcept] at hf; exact hf.1.symm
+  | lex recs ce =>
+    simp only [runOp] at hf
+    cases hc : (readLex v x s.1 recs ce).toExcept .lex with
     | error f' =>
-      simp only [hl] at hf
-      injection hf with hf; subst hf
-      exact absurd rfl (toExcept_not_panic (readLex_no_panic v x inp) _ hl s w)
-    | ok st =>
-      simp only [hl] at hf
-      exact absurd rfl (toExcept_not_panic (resolveOpt_no_panic _ _) _ hf s w)
+      simp only [hc] at hf; injection hf with hf; subst hf
+      exact absurd rfl (toExcept_not_panic (readLex_no_panic v x s.1 recs ce) _ hc st w)
+    | ok c => simp [hc] at hf
+  | resolve =>
+    simp only [runOp] at hf
+    cases hc : (resolve s.1).toExcept .resolve with
+    | error f' =>
+      simp only [hc] at hf; injection hf with hf; subst hf
+      exact absurd rfl (toExcept_not_panic (resolve_no_panic s.1) _ hc st w)
+    | ok c => simp [hc] at hf
+
+theorem runOps_panic_stage {v : Variant} {x : Ext} {s0 : Builder × Nat} {ops : List Op} {s : Stage} {w : PanicWhy}
+    (hf : runOps v x s0 ops = .error (.panic s w)) : s = .conn := by
+  induction ops generalizing s0 with
+  | nil => simp [runOps] at hf
+  | cons op ops ih =>
+    simp only [runOps] at hf
+    cases ho : runOp v x s0 op with
+    | error f' =>
+      simp only [ho] at hf; injection hf with hf; subst hf
+      exact runOp_panic_stage ho
+    | ok s' => simp only [ho] at hf; exact ih hf
+
+/-- a panic before `compile` is a panic of the matrix reader -/
+theorem prepare_panic_stage {v : Variant} {x : Ext} {inp : Input} {s : Stage} {w : PanicWhy}
+    (hf : prepare v x inp = .error (.panic s w)) : s = .conn :=
+  runOps_panic_stage hf
 
 theorem build_panic_kind {v : Variant} {x : Ext} {inp : Input} {limit : Option Nat} {s : Stage} {w : PanicWhy}
     (h : build v x inp limit = .panic s w) :
-    s = .conn ∨ (s = .compile ∧ ((w = .emptyKeys ∧ v.d4 = false) ∨ (w = .nulKey ∧ v.d5 = false))) := by
+    s = .conn ∨ (s = .compile ∧ ((w = .emptyKeys ∧ v.d4 = false) ∨ (w = .nulKey ∧ v.d5 = false) ∨
+      (w = .unresolvedSplit ∧ v.rf = false))) := by
   unfold build at h
   cases hp : prepare v x inp with
   | error f =>
@@ -940,12 +1093,13 @@ theorem build_panic_kind {v : Variant} {x : Ext} {inp : Input} {limit : Option N
       obtain ⟨rfl, rfl⟩ := h
       right
       refine ⟨rfl, ?_⟩
-      rcases compile_panic_kind hi hcmp with ⟨h1, h2, _⟩ | ⟨h1, e, he, _, hn⟩
+      rcases compile_panic_kind hi hcmp with ⟨h1, h2, _⟩ | ⟨h1, e, he, _, hn⟩ | ⟨h1, h2, _⟩
       · exact Or.inl ⟨h1, h2⟩
-      · right
+      · right; left
         refine ⟨h1, ?_⟩
         cases h5 : v.d5 with
         | false => rfl
-        | true => have := (hi.1 e he).2 h5; rw [this] at hn; cases hn
+        | true => have := (hi.1.1 e he).2 h5; rw [this] at hn; cases hn
+      · exact Or.inr (Or.inr ⟨h1, h2⟩)
 
 end Build
